@@ -7,7 +7,7 @@ use crate::oracle::graph::qf;
 use crate::with_d;
 use std::time::Instant;
 
-pub const RULE: &str = "cases = accepted connected graphs (G-phys: random spanning tree + 1..5 extra edges incl. self-loops/parallel edges, E<=8 (thorough 9), D=1..6, all omega>=0.15 or >=1/64), a cycle basis built from a random spanning tree and scrambled by up to 4 (thorough 6) unimodular column operations and edge-orientation flips, a structured x-space point (uniform / interval-interior / moderate classes, some tails). oracle: metadata L matrix symmetric and entrywise sum_e x_e s_ei s_ej (x = logged parameters), u against the brute-force spanning-tree sum and the exact rational determinant within 1000*eps*kappa(L). non-trivial = L>=2 loops and a non-zero off-diagonal entry of L, parameters in the oracle's magnitude range; distinct = distinct case encodings";
+pub const RULE: &str = "cases = accepted connected graphs (G-phys: random spanning tree + 1..5 extra edges incl. self-loops/parallel edges, E<=8 (thorough 9), D=1..6, all omega>=0.15 or >=1/64), a cycle basis built from a random spanning tree and scrambled by up to 4 (thorough 6) unimodular column operations and edge-orientation flips, a structured x-space point (uniform / interval-interior / moderate classes, some tails). oracle: metadata L matrix symmetric and entrywise sum_e x_e s_ei s_ej (x = logged parameters), u against the brute-force spanning-tree sum and the exact rational determinant within 1000*eps*kappa(L), and - for graded L matrices, where kappa(L) is huge - within 1000*eps*L*kappa(H) of the determinant, H the diagonally scaled matrix, when kappa(H) <= 1e8. non-trivial = L>=2 loops and a non-zero off-diagonal entry of L, parameters in the oracle's magnitude range; distinct = distinct case encodings";
 
 pub fn gen_case(t: &mut Tape, tier: Tier) -> Option<Phys> {
     let mo = if t.chance(0.3) { 1.0 / 64.0 } else { 0.15 };
@@ -37,6 +37,33 @@ pub fn assert_c08(c: &Phys, ev: &Eval, ctx: &mut Ctx) -> Result<(), Failure> {
     if !ev.in_range {
         ctx.label("excluded:out-of-range");
         return Ok(());
+    }
+    // graded L matrices (Feynman parameters on very different scales): a determinant formed from Cholesky pivots is
+    // accurate to the condition number of the diagonally SCALED matrix H = D^-1/2 L D^-1/2 (|delta det/det| <~ n^2 eps
+    // kappa(H), Higham ch. 10), however large kappa(L) itself is; the formation of L from the parameters perturbs H by
+    // at most n eps as well (Cauchy-Schwarz on sum_e x_e s_ei s_ej)
+    {
+        let d: Vec<f64> = (0..nl).map(|i| qf(&ev.lq[i][i]).sqrt()).collect();
+        if d.iter().all(|v| v.is_finite() && *v > 0.0) {
+            let h: Vec<Vec<f64>> = (0..nl).map(|i| (0..nl).map(|j| qf(&ev.lq[i][j]) / (d[i] * d[j])).collect()).collect();
+            if let Some(hq) = crate::oracle::lin::from_f64(&h) {
+                if let Some((_, hinv)) = crate::oracle::lin::det_inv(&hq) {
+                    let habs: crate::oracle::lin::QMat = hq.iter().map(|r| r.iter().map(|x| num::Signed::abs(x)).collect()).collect();
+                    let kappa_s = crate::oracle::lin::fro(&habs) * crate::oracle::lin::fro(&hinv);
+                    if kappa_s.is_finite() && kappa_s <= 1e8 {
+                        let tol_s = phys::K * EPS * (nl as f64) * kappa_s;
+                        let r = rel(ev.out.u, qf(&ev.detq));
+                        ctx.max("u_vs_exact_det_over_scaled_tol", r / tol_s);
+                        if !(r <= tol_s) {
+                            fail!("u-vs-det(scaled)", "u={:e} but exact det(L)={:e} (rel {r:e} > {tol_s:e}): L is graded (kappa(L)={:e}) but its diagonally scaled form has condition number {kappa_s:e} only, so the determinant is well determined; case {c:?}", ev.out.u, qf(&ev.detq), ev.kappa);
+                        }
+                        if ev.tau_u > 1e-3 {
+                            ctx.label("graded-L:decided-by-scaled-condition-number");
+                        }
+                    }
+                }
+            }
+        }
     }
     if ev.tau_u > 1e-3 {
         ctx.label("excluded:ill-conditioned");
